@@ -7,7 +7,7 @@ CONSTANTS
   MaxDepth = 2
   MaxAtoms = 2
   MaxCondAtoms = 2
-  Bug = "none"
+  Bug = "nogenvisit"
   Fixed = {}
-INVARIANT StatusFollowsSpecStrict
+INVARIANT EvalFollowsSpec
 CHECK_DEADLOCK FALSE
